@@ -473,15 +473,57 @@ def check_chain(ctx, case):
         calls.append({"old": old_value, "K": num_clusters, "n": num_data_points, "ret": v, "log": log, "a": self.a, "b": self.b, "rng": self._rng})
         return v
 
+    wired = []  # everything the chain builds that can evaluate a density: kernel, samplers (spied at construction)
+    real_setup_samplers, real_setup_kernel = prun.setup_samplers, prun.setup_kernel
+
+    def setup_samplers_rec(*a, **kw):
+        r = real_setup_samplers(*a, **kw)
+        wired.extend(list(a) + list(kw.values()) + [r])
+        return r
+
+    def setup_kernel_rec(*a, **kw):
+        r = real_setup_kernel(*a, **kw)
+        wired.append(r)
+        return r
+
+    def stale_dists(alpha, log_alpha):
+        """every TreeJointDistribution reachable from what the chain wired whose prior is not the value in force"""
+        seen, out, todo = set(), [], [(w, "wired") for w in wired]
+        while todo:
+            o, path = todo.pop()
+            if id(o) in seen or isinstance(o, (int, float, str, bytes, bool, type(None), np.ndarray, np.random.Generator, Tree)):
+                continue
+            seen.add(id(o))
+            if isinstance(o, TreeJointDistribution):
+                if not (close(o.prior.alpha, alpha, 1e-15) and abs(float(o.prior.log_alpha) - log_alpha) <= 1e-12):
+                    out.append({"path": path, "alpha": float(o.prior.alpha), "log_alpha": float(o.prior.log_alpha)})
+                continue
+            if len(path) > 120:
+                continue
+            if isinstance(o, (list, tuple, set, frozenset)):
+                todo.extend((x, path + "[]") for x in list(o)[:50])
+            elif isinstance(o, dict):
+                todo.extend((x, path + "{}") for x in list(o.values())[:50])
+            else:
+                d = getattr(o, "__dict__", None)
+                if d:
+                    todo.extend((v, path + "." + k) for k, v in d.items())
+                for k in getattr(type(o), "__slots__", ()) or ():
+                    if hasattr(o, k):
+                        todo.append((getattr(o, k), path + "." + k))
+        return out
+
     def update_rec(conc_sampler, tree, tree_dist):
         k0 = len(calls)
         cnt = graph_count(tree)
         real_update(conc_sampler, tree, tree_dist)
         upd_calls.append({"direct": cnt, "calls": len(calls) - k0, "alpha_after": tree_dist.prior.alpha,
-                          "log_alpha_after": float(tree_dist.prior.log_alpha), "outs": len(tree.outliers)})
+                          "log_alpha_after": float(tree_dist.prior.log_alpha), "outs": len(tree.outliers),
+                          "stale": stale_dists(tree_dist.prior.alpha, float(tree_dist.prior.log_alpha)), "wired": len(wired)})
 
     pconc.GammaPriorConcentrationSampler.sample = sample_rec
     prun.update_concentration_value = update_rec
+    prun.setup_samplers, prun.setup_kernel = setup_samplers_rec, setup_kernel_rec
     op = float(ds.outlier_prob)
     try:
         with contextlib.redirect_stdout(io.StringIO()):
@@ -500,7 +542,16 @@ def check_chain(ctx, case):
     finally:
         pconc.GammaPriorConcentrationSampler.sample = real_sample
         prun.update_concentration_value = real_update
+        prun.setup_samplers, prun.setup_kernel = real_setup_samplers, real_setup_kernel
     trace = res["trace"]
+    for j, u in enumerate(upd_calls):
+        if u["stale"]:
+            st = u["stale"][0]
+            ctx.oracle_fail(case, f"after update {j} the value in force is {u['alpha_after']}, but {st['path']} still evaluates densities with alpha = {st['alpha']}",
+                            SITE_LOOP, {"kind": "sampler-stale-alpha"}, u["stale"][:3])
+            break
+    if upd_calls:
+        ctx.stat("chain_wired_objects_walked" if upd_calls[0]["wired"] else "chain_wiring_not_seen")
     ctx.stat("chain_update_on" if case["update"] else "chain_update_off")
     want_calls = case["iters"] if case["update"] else 0
     if len(upd_calls) != want_calls or len(calls) != want_calls:
